@@ -141,4 +141,29 @@ def handleGameSan (args : List String) : String :=
       go p [] ucis
   | _ => "bad-request"
 
+/-- perft by the rules: divide table for depth ≥ 1 -/
+def perftCount (p : Pos) : Nat → Nat
+  | 0 => 1
+  | d + 1 => ((legalMoves p).map fun m => perftCount (apply p m) d).sum
+
+def handlePerft (args : List String) : String :=
+  match args with
+  | [f, d] =>
+    match d.toNat? with
+    | some (d + 1) => withPos f fun p => sortedJoin ((legalMoves p).map fun m => s!"{m.uci}:{perftCount (apply p m) d}")
+    | _ => "bad-request"
+  | _ => "bad-request"
+
+def handleLegalAfter (args : List String) : String :=
+  match args with
+  | f :: ucis => withPos f fun p =>
+      let rec go (cur : Pos) : List String → String
+        | [] => s!"{fenTok cur} {sortedJoin ((legalMoves cur).map SMove.uci)}"
+        | u :: rest =>
+          match (legalMoves cur).find? (fun m => m.uci == u) with
+          | some m => go (apply cur m) rest
+          | none => s!"ERR {u}"
+      go p ucis
+  | _ => "bad-request"
+
 end Inkayaku.SpecOps
